@@ -81,6 +81,11 @@ def decoder_domain(rng, tier, pid, scale=1.0, sweep=True):
     if sweep:
         dom += [("sweep", d) for d in G.stack_sweep()]
     dom += [("builtin", d) for d in builtin_call_programs()]
+    # bytes between the pickles of a stream: nothing after STOP is ever skipped (a newline, space, NUL, CR LF is the
+    # next opcode byte and an error), whatever the delivery
+    for sepb in (b"\n", b" ", b"\r\n", b"\x00", b"\n\n", b"\t"):
+        for a, b_ in ((b"I1\n.", b"I2\n."), (b"K\x01.", b"K\x02."), (b"\x80\x02N.", b"\x80\x02N."), (b"S'a'\n.", b"V\n.")):
+            dom += [("sep", a + sepb + b_), ("sep", a + sepb), ("sep", sepb + a)]
     r = rng.fork("cyc")
     dom += [("cyclic", d) for d in G.cyclic_operand_programs() if sweep or r.below(8) == 0]
     dom = [(t, d) for (t, d) in dom if model_ok_input(d) or (t == "bomb" and len(d) <= 80000)]
